@@ -20,7 +20,7 @@ import (
 
 var benignFaults = []string{"resegment", "dribble", "random-cuts", "latency", "jitter", "short-read", "finite-window", "starved-node", "deadline-retry", "preempt"}
 var benignReach = []string{"A1-proto-mismatch", "A2-version", "A3-no-suite", "A4-ecdhe-gm", "A5-missing-certs", "A6-server-verify", "A7-client-auth", "A8-callback-error", "A9-complete",
-	"gm-cbc", "gm-gcm", "tls10", "tls11", "tls12", "client-cert-sent", "callbacks-cert", "getconfigforclient", "payload>=16k", "payload-0", "stdlib-client", "stdlib-server", "wire-decoded", "vhost-second-name", "timeout-retried", "auto-gm", "auto-tls", "wire-decoded-tls12", "alpn-negotiated"}
+	"gm-cbc", "gm-gcm", "tls10", "tls11", "tls12", "client-cert-sent", "callbacks-cert", "getconfigforclient", "payload>=16k", "payload-0", "stdlib-client", "stdlib-server", "wire-decoded", "vhost-second-name", "timeout-retried", "auto-gm", "auto-tls", "wire-decoded-tls12", "alpn-negotiated", "client-chain-with-intermediate"}
 
 func init() {
 	register(Family{Name: "tls-benign", Prop: "C06", ID: 601, Weight: 1, FaultNames: benignFaults, ReachNames: benignReach, Run: runTLSBenign})
@@ -77,7 +77,8 @@ type benignParams struct {
 	CMin, CMax   uint16
 	SMin, SMax   uint16
 	ClientAuth   gmtls.ClientAuthType
-	ClientCert   int // 0 none 1 valid 2 untrusted (other CA)
+	ClientCert   int  // 0 none 1 valid 2 untrusted (other CA) 3 valid, chain through an intermediate CA
+	ClientLeaf   bool // Certificate.Leaf populated (as its documentation recommends)
 	SrvClientCAs bool
 	SrvCertSrc   int      // 0 static 1 callbacks 2 GetConfigForClient 3 callbacks decline (nil, nil), static list present 4 callbacks decline, nothing static
 	Curves       []uint16 // TLS: CurvePreferences of both ends (nil = default)
@@ -188,7 +189,8 @@ func drawBenignParams(c *simkit.Choice) benignParams {
 	}
 	p.PreferServer = c.Bool(1, 3, simkit.LScen)
 	p.ClientAuth = gmtls.ClientAuthType(c.Weighted([]int{4, 1, 1, 1, 2}, simkit.LScen))
-	p.ClientCert = c.Weighted([]int{3, 4, 1}, simkit.LScen)
+	p.ClientCert = c.Weighted([]int{3, 4, 1, 2}, simkit.LScen) // 3: valid, issued by an intermediate CA whose certificate travels along
+	p.ClientLeaf = c.Bool(1, 2, simkit.LScen)
 	p.SrvClientCAs = !c.Bool(1, 6, simkit.LScen)
 	p.SrvCertSrc = c.Weighted([]int{3, 2, 1}, simkit.LScen)
 	p.CliCertSrc = c.Weighted([]int{3, 1}, simkit.LScen)
@@ -634,6 +636,12 @@ func (p *benignParams) clientConfig(s *simkit.Sim, ent *simkit.Stream, res *endR
 	case p.ClientCert == 2 && p.CGM:
 		x := pki.GM("cliB")
 		cc = &x
+	case p.ClientCert == 3 && p.CGM:
+		x := pki.GM("cliint", "caAint")
+		cc = &x
+	case p.ClientCert == 3:
+		x := pki.GMStd("tlscliint", "rsaInt")
+		cc = &x
 	case p.ClientCert == 1:
 		x := pki.GMStd("tlsclirsa")
 		cc = &x
@@ -641,6 +649,9 @@ func (p *benignParams) clientConfig(s *simkit.Sim, ent *simkit.Stream, res *endR
 		x := pki.GMStd("tlsrsa") // a certificate without clientAuth usage from the same CA is still "rooted"; use an SM2-CA one instead
 		x = pki.GMStd("srvrsa")
 		cc = &x
+	}
+	if cc != nil && p.ClientLeaf {
+		cc.Leaf = pki.Cert(map[bool]map[int]string{true: {1: "cli", 2: "cliB", 3: "cliint"}, false: {1: "tlsclirsa", 2: "srvrsa", 3: "tlscliint"}}[p.CGM][p.ClientCert])
 	}
 	if cc != nil {
 		if p.CliCertSrc == 1 {
@@ -1017,7 +1028,7 @@ func runTLSBenign(c *simkit.Choice, r *simkit.Rec) {
 		}
 		if pres {
 			r.Reach(idx(benignReach, "client-cert-sent"))
-			want := map[bool]map[int]string{true: {1: "cli", 2: "cliB"}, false: {1: "tlsclirsa", 2: "srvrsa"}}[p.CGM][p.ClientCert]
+			want := map[bool]map[int]string{true: {1: "cli", 2: "cliB", 3: "cliint"}, false: {1: "tlsclirsa", 2: "srvrsa", 3: "tlscliint"}}[p.CGM][p.ClientCert]
 			if !bytes.Equal(sv.peer[0], pki.DER(want)) {
 				r.Violate("peer-certs", site+"/client-cert", "server's PeerCertificates[0] is not the client's certificate")
 				return
@@ -1078,6 +1089,9 @@ func runTLSBenign(c *simkit.Choice, r *simkit.Rec) {
 	}
 	if p.SrvCertSrc == 1 {
 		r.Reach(idx(benignReach, "callbacks-cert"))
+	}
+	if p.ClientCert == 3 && len(sv.peer) > 1 {
+		r.Reach(idx(benignReach, "client-chain-with-intermediate"))
 	}
 	if p.SrvCertSrc == 2 {
 		r.Reach(idx(benignReach, "getconfigforclient"))
@@ -1196,6 +1210,8 @@ func stdClientRun(p *benignParams, raw *simkit.Conn, ent *simkit.Stream, plan *a
 		cfg.Certificates = []tls.Certificate{{Certificate: [][]byte{pki.DER("tlsclirsa")}, PrivateKey: pki.StdKey("tlsclirsa")}}
 	case 2:
 		cfg.Certificates = []tls.Certificate{{Certificate: [][]byte{pki.DER("srvrsa")}, PrivateKey: pki.StdKey("srvrsa")}}
+	case 3:
+		cfg.Certificates = []tls.Certificate{{Certificate: [][]byte{pki.DER("tlscliint"), pki.DER("rsaInt")}, PrivateKey: pki.StdKey("tlscliint")}}
 	}
 	conn := tls.Client(raw, cfg)
 	e.HsErr = conn.Handshake()
